@@ -46,20 +46,22 @@ def fragment_texts(fragments, use=None):
 def abstract_texts(model):
     """schema / query / payloads for a model of kernels.k_abstract_selection"""
     impl, memb = model['implements'], model['members']
+    ON = model.get('obj_names') or ['O0', 'O1']
     parent = 'I0' if model['parent'] == 'interface' else 'U0'
     lines = ['schema { query: Query }', f'type Query {{ n: {parent} }}', 'interface I0 { leaf: Int }']
     for o in range(2):
-        lines.append(f'type O{o}{" implements I0" if impl[o] else ""} {{ leaf: Int f1: Int f2: Int }}')
-    members = [f'O{o}' for o in range(2) if memb[o]] or ['O0']
+        lines.append(f'type {ON[o]}{" implements I0" if impl[o] else ""} {{ leaf: Int f1: Int f2: Int }}')
+    members = [ON[o] for o in range(2) if memb[o]] or [ON[0]]
     lines.append('union U0 = ' + ' | '.join(members))
     schema = '\n'.join(lines) + '\n'
-    on = {'O0': 'O0', 'O1': 'O1', 'PARENT': parent}
+    on = {'O0': ON[0], 'O1': ON[1], 'PARENT': parent}
     frag_field = lambda k, t: ('__typename' if t == 'U0' else ('leaf' if t == 'I0' else f'f{k}'))
     frags = [f"fragment F{k} on {on[model[f'F{k}_on']]} {{ {frag_field(k, on[model[f'F{k}_on']])} }}" for k in (1, 2)]
-    query = 'query Q { n { ' + ' '.join(model['selections']) + ' } }\n' + '\n'.join(frags) + '\n'
+    sels = [s_.replace('... on O0', '... on ' + ON[0]).replace('... on O1', '... on ' + ON[1]) for s_ in model['selections']]
+    query = 'query Q { n { ' + ' '.join(sels) + ' } }\n' + '\n'.join(frags) + '\n'
     # one payload per possible object type carrying every field the operation can select on it
     possible = [o for o in range(2) if (impl[o] if parent == 'I0' else memb[o])]
-    payloads = [{'n': {'__typename': f'O{o}', 'leaf': 1, 'f1': 2, 'f2': 3}} for o in possible]
+    payloads = [{'n': {'__typename': ON[o], 'leaf': 1, 'f1': 2, 'f2': 3}} for o in possible]
     return schema, query, payloads, possible
 
 
